@@ -10,6 +10,7 @@ import (
 	"encoding/json"
 	"errors"
 	"fmt"
+	"math"
 	"os"
 	"path/filepath"
 	"regexp"
@@ -228,6 +229,35 @@ var implemented = func() map[string]bool {
 	return m
 }()
 
+// implementedOpsets: the opset versions the tree under test implements. Version 13 is pinned. A tree that adds
+// support for further versions (a new entry in its getter table) must not be flagged for loading them, so versions
+// 1..64 that gonnx.ResolveOperatorGetter accepts count as implemented too - unless the resolver also accepts
+// versions nobody could implement (0, negative, 2^31, MaxInt64): that is over-acceptance (">= 13"), not support,
+// and then only 13 counts.
+var implementedOpsets = func() map[int64]bool {
+	m := map[int64]bool{13: true}
+	accepts := func(v int64) (ok bool) {
+		defer func() {
+			if recover() != nil {
+				ok = false
+			}
+		}()
+		g, err := gonnx.ResolveOperatorGetter(v)
+		return err == nil && g != nil
+	}
+	for _, v := range []int64{0, -1, -13, math.MinInt64, 1 << 31, 1 << 40, math.MaxInt64, 1000, 65} {
+		if accepts(v) {
+			return m
+		}
+	}
+	for v := int64(1); v <= 64; v++ {
+		if accepts(v) {
+			m[v] = true
+		}
+	}
+	return m
+}()
+
 func maxOpset(mp *onnx.ModelProto) int64 {
 	var mx int64
 	for _, oi := range mp.GetOpsetImport() {
@@ -373,7 +403,7 @@ func Check18(c *Case, env *Env) []verdict {
 		}
 	}
 	mx := maxOpset(mp)
-	if mx != 13 {
+	if !implementedOpsets[mx] {
 		if st != nil {
 			st.Probe("declares_unsupported_opset")
 		}
@@ -505,7 +535,7 @@ func Check12(c *Case, env *Env) []verdict {
 		}
 		return []verdict{{sig: "load-panic@" + o.frame + ":" + cl, what: fmt.Sprintf("load panicked (%s) on a model whose initializers are %s", o.pmsg, cl)}}
 	}
-	if maxOpset(mp) != 13 {
+	if !implementedOpsets[maxOpset(mp)] {
 		return nil // refused for another reason (C18's business)
 	}
 	var out []verdict
